@@ -211,6 +211,43 @@ def check(run):
             seen.add(A1)
         if len(seen) == 1 and 'RAND' in vol:
             run.violation('the volatile cell shows the same value %r in 4 calls of the compiled function (frozen at compile time)' % A1, case)
+    # ---- (1d) the compiled function does not depend on what the model calculated before or after compiling -----------------------
+    # ranges with several unpopulated, unlisted cells read them from "the running solution": it must be the solution of the call,
+    # not the last solution of the model the function was compiled from
+    P = "'[h.xlsx]S'!"
+    for k in range(25 if quick else 500):
+        n = rnd.randint(4, 9)
+        pop = sorted(rnd.sample(range(1, n + 1), rnd.randint(1, n - 2)))
+        blanks = [i for i in range(1, n + 1) if i not in pop]
+        d = {P + 'A%d' % i: rnd.choice([1, 2, 3, 5, 10]) for i in pop}
+        d[P + 'B1'] = '=SUM(%sA1:A%d)' % (P, n)
+        d[P + 'B2'] = '=%sB1*2+%sC1' % (P, P)
+        d[P + 'B3'] = '=COUNT(%sA1:A%d)+%sC1' % (P, n, P)
+        d[P + 'C1'] = 1
+        case = {'workbook': d, 'stream': 'history-independence'}
+        inp_cell = rnd.choice([P + 'A%d' % pop[0], P + 'C1'])
+        outs = [P + 'B2', P + 'B3']
+        hist = []
+        try:
+            m = bookrun.ExcelModel().from_dict(d)
+            if rnd.random() < 0.7:
+                hb = {P + 'A%d' % rnd.choice(blanks): rnd.choice([100, 1000])}
+                m.calculate(inputs=hb); hist.append(('calculate-before', hb))
+            f = m.compile(inputs=[inp_cell], outputs=outs)
+            if rnd.random() < 0.7:
+                hb = {P + 'A%d' % rnd.choice(blanks): rnd.choice([100, 1000])}
+                m.calculate(inputs=hb); hist.append(('calculate-after', hb))
+            arg = rnd.choice([4, 7, 0.5])
+            got = [wires(x) for x in f(arg)]
+            exp_sol = bookrun.ExcelModel().from_dict(d).calculate(inputs={inp_cell: arg}, outputs=outs)
+            exp = [wires(exp_sol[o]) for o in outs]
+        except Exception as ex:
+            run.violation('history stream raised %s: %s' % (type(ex).__name__, str(ex)[:100]), case)
+            continue
+        run.count(1, (json.dumps(d, sort_keys=True), inp_cell, str(hist)), bool(hist), 'history-independence/ops=%d' % len(hist))
+        if got != exp:
+            run.violation('compiled function returns %s for %s after the model history %s, a full calculation of a fresh model with the same inputs gives %s' % (
+                got, outs, hist, exp), dict(case, inputs=[inp_cell], outputs=outs, args=[arg], history=str(hist)))
     # ---- (2) single formulas ------------------------------------------------------------------------------------------
     nf = 250 if quick else 6000
     refs_pool = ['A1', 'B2', 'C3', 'A1:A3', 'B1:B3', 'D4']     # broadcast-compatible shapes only
